@@ -114,6 +114,39 @@ def ringCert (nint ntot : Nat) (tyf : Nat → Nat) (nb : Nat → List Nat) (nd :
         && ((nb (nint + k)).filter fun j => kind (tyf j) != 1).length == 1).length
       = (ntot - nint) / (2 * nd) )
 
+/-! ### automorphisms of the bundle tables (C07)
+
+`pi` is a candidate permutation of the coolant subchannels (derived by the harness from the
+published centroid coordinates, not from the numbering), `sigma` of the pins. -/
+
+/-- `pi` permutes `0..n-1` -/
+def isPerm (n : Nat) (pi : Nat → Nat) : Bool :=
+  let img := (List.range n).map pi
+  decide img.Nodup && img.all fun j => decide (j < n)
+
+/-- `pi` preserves types, the neighbour relation and the given donor map (it may map the donor map
+`donorA` to another donor map `donorB`: rotations keep the direction, the mirror swaps it) -/
+def autoCert (ncool nint : Nat) (tyf : Nat → Nat) (nb : Nat → List Nat) (donorA donorB : Nat → Option Nat)
+    (pi : Nat → Nat) : Bool :=
+  isPerm ncool pi
+  && ((List.range ncool).all fun i =>
+      (tyf (pi i) == tyf i)
+      && ((nb (pi i)).length == (nb i).length)
+      && ((nb i).all fun j => (nb (pi i)).contains (pi j)))
+  && ((List.range (ncool - nint)).all fun k =>
+      let i := nint + k
+      donorB (pi i) == (donorA i).map pi)
+
+/-- pins: `sigma` permutes the pins and carries the pin → subchannel incidence along `pi` -/
+def pinAutoCert (npin : Nat) (pinrow : Nat → List Nat) (pi sigma : Nat → Nat) : Bool :=
+  isPerm npin sigma
+  && ((List.range npin).all fun p =>
+      ((pinrow (sigma p)).length == (pinrow p).length)
+      && ((pinrow p).all fun j => (pinrow (sigma p)).contains (pi j)))
+
+/-- read a permutation table (1 column) -/
+def permOf (N w : Nat) (i : Nat) : Nat := ent N w 1 i 0
+
 /-! ### inter-assembly gap mesh of one core layout (C09)
 
 `asmrow a` lists the gap cells (1-based ids as stored, here decoded to 0-based) around
